@@ -44,7 +44,7 @@ Section CONFINED.
     (forall x, prog_confined f0 d (k x)) -> prog_confined f0 d (sp_load frepr (d ++ [n]) j k).
   Proof.
     intros n j k Hk. unfold sp_load. apply pc_do; [conf|]. intros [v|e].
-    - destruct v; try apply Hk. destruct (c_json c); [|apply Hk]. destruct (str_eqb _ _); apply Hk.
+    - destruct v; try apply Hk. destruct (c_json c) as [vv|]; [|apply Hk]. destruct (is_jnull vv); [apply Hk|]. destruct (str_eqb _ _); apply Hk.
     - destruct e; apply Hk.
   Qed.
 
